@@ -67,6 +67,17 @@ def run(ctx):
             p = problems.gen_problem(rng, A, alg_name=nm)
             p["x0"] = [v + 1e6 for v in p["x0"]]
             ps.append(p)
+        # rejected calls: the start violates a FIXED coordinate (checked on a different path than ordinary bound violations)
+        for nm in problems.ALL:
+            p = problems.gen_problem(rng, A, alg_name=nm, box="fixed")
+            fixed = [i for i, (a, b) in enumerate(zip(p["lb"], p["ub"])) if a == b]
+            if not fixed:
+                continue
+            p["x0"] = list(p["x0"])
+            p["x0"][fixed[0]] = p["lb"][fixed[0]] + rng.choice([0.5, -0.5])
+            if rng.random() < 0.7:
+                p["max"] = 1
+            ps.append(p)
         b1 = runcheck.run_batch(ctx, bdir, A, ps, [mon_settings], "first process", blame_crash=False)
         b2 = runcheck.run_batch(ctx, bdir, A, ps, [], "second process", replay=False, blame_crash=False)
         runcheck.compare_pairs(ctx, [r for _, r, _ in b1], [r for _, r, _ in b2], same, "two processes", {"cause": "two equal runs differ"})
